@@ -484,7 +484,9 @@ def parse_coq_values(out: str) -> list:
     for m in re.finditer(r"^\s*= (.*?)\n\s*: [^\n]*(?:\n(?=\s*=|\Z|[A-Z])|\Z)", out, re.S | re.M):
         txt = m.group(1)
         txt = re.sub(r"%(Z|nat|N|positive|string|char)\b", "", txt)
-        txt = txt.replace(";", ",").replace("true", "True").replace("false", "False")
+        txt = txt.replace(";", ",")
+        txt = re.sub(r"\btrue\b", "True", txt)
+        txt = re.sub(r"\bfalse\b", "False", txt)
         txt = re.sub(r"\s+", " ", txt)
         vals.append(_ast.literal_eval(txt))
     return vals
